@@ -6,6 +6,7 @@
 //! Case line (one line, space separated):
 //!   <label> CFG <pool_deposit> <key_deposit> <prefer_pure 0|1> <do_not_burn 0|1> <cpb> <max_value_size> <max_tx_size> <fee_a> <fee_b>
 //!           PR <~ | mem_num mem_den step_num step_den> <~ | ref_num ref_den>
+//!           [DD <0|1>]
 //!           U <n> { <id> <kind> <mem> <steps> <refsize> VALUE }*
 //!           OB <n> { <addr> <extra> <obase> }*
 //!           OPS <n> { OP }*
@@ -15,14 +16,20 @@
 //!          | don <c> | treas <c> | fee <c> | minfee <c> | change <addr> <extra>
 //!          | selchange <strategy 0..3> <addr> <extra> <k> { <id> }* | build
 //!          | x <tag> <n>          tag = sig | coll | colltotal | collret | ref | refplain | meta | ttl | datum
+//!          | xr <id> <size>
 //!   addr  = address id of a destination (>= 1; kind and bytes are a function of the id: enterprise, base, pointer,
 //!           base with script stake part, one Byron address (id 4)); these addresses never sign.
 //!   extra = 0 none, 1 datum hash, 2 inline datum, 3 script ref, 4 inline datum + script ref.
 //!   PR    = ex-unit prices and reference-script price per byte of the builder configuration (~ = not configured).
+//!   DD    = deduplicate_explicit_ref_inputs_with_regular_inputs of the builder configuration (absent = 0; always generated).
 //!   U     = the UTxO table.  UTxO id i is outpoint (hash(i), i mod 7).  kind:
 //!           0 key address (enterprise or base by (id/2) mod 2), payment key kh(id mod 12)
-//!           1 Byron / Icarus address of bip32 key (id mod 3)
-//!           2 native script: (id/2) even -> ScriptPubkey kh(id mod 12); odd -> ScriptAll [kh(id mod 12), kh((id+1) mod 12)]
+//!           1 Byron / Icarus address of bip32 key (id mod 3); protocol magic mainnet (no attributes) when (id/3) even,
+//!             testnet 1097911063 (the address and its bootstrap witness carry the network-magic attribute) when odd:
+//!             six distinct addresses, number id mod 6
+//!           2 native script: (id/2) even -> ScriptPubkey kh(id mod 12); odd -> ScriptAll [kh(id mod 12), kh((id+1) mod 12)];
+//!             but for (id/4) mod 3 = 2 the SHARED script ScriptAny [kh(g), kh(g+1)], g = id mod 3, whose source DECLARES its
+//!             signer (set_required_signers): [kh(g)] when (id/12) even, [kh(g+1)] when odd -- that declared key signs
 //!           3 Plutus V2 script in the witness set, INLINE datum on the UTxO (PlutusWitness::new_without_datum)
 //!           4 Plutus V2 script in the witness set, WITNESS datum (PlutusWitness::new; datum = bytes of length 1 + id mod 40)
 //!           5 Plutus V2 script BY REFERENCE, inline datum (new_with_ref_without_datum)
@@ -31,11 +38,17 @@
 //!           <refsize>, kinds 5/6: script_size of the referenced script (script hash and reference outpoint are functions of
 //!           <refsize>: equal sizes = one referenced script).  <refsize> > 0, kinds 0..4: the UTxO's OWN output carries a
 //!           script_ref (Plutus V2 script, content a function of id) with ScriptRef::to_unwrapped_bytes().len() = <refsize>.
-//!   in id = the UTxO goes into ONE TxInputsBuilder (all kinds), re-installed with set_inputs after each `in`.  Route:
-//!           kinds 0..4 with refsize > 0, or odd id: UTxO form (add_regular_utxo / add_native_script_utxo /
-//!           add_plutus_script_utxo with the UTxO's output); even id: add_key_input (id mod 4 = 0) / add_regular_input
-//!           (id mod 4 = 2) for kind 0, add_bootstrap_input / add_regular_input for kind 1, add_native_script_input,
-//!           add_plutus_script_input.   selchange offers kind-0 and kind-1 UTxOs (with their own script_ref, if any).
+//!   in id = the UTxO goes into ONE TxInputsBuilder (all kinds), re-installed with set_inputs after each `in`.  Route (a
+//!           static function of the case; XR = the ids that have an `xr` op anywhere in OPS):
+//!           UTxO form (add_regular_utxo / add_native_script_utxo / add_plutus_script_utxo with the UTxO's output) for
+//!             kinds 0..4 with refsize > 0 unless (id in XR and id mod 3 != 0), and for refsize = 0 (or kinds 5/6) with odd id;
+//!           ADDRESS form otherwise: add_key_input (id mod 4 = 0) / add_regular_input (else) for kind 0, add_bootstrap_input
+//!             (id mod 4 = 0) / add_regular_input for kind 1, add_native_script_input, add_plutus_script_input.  (An input with
+//!             its own script_ref in address form: the builder learns the script size only from the xr registration.)
+//!           selchange offers kind-0 and kind-1 UTxOs (with their own script_ref, if any); never one that is in XR.
+//!   xr id size = add_script_reference_input(outpoint of UTxO id, size): an explicit reference input with a DECLARED script
+//!           size.  The UTxO may also be spent (before or after), be a collateral, or neither; a second xr for the same id
+//!           overwrites the declared size.
 //!   OB    = for every (addr, extra) pair of an out / change / selchange op, in order of first occurrence:
 //!           obase = |output(addr, extra, ADA-only value 0)| - 1  (the bytes of such an output outside its Value)
 //!   x sig k        add_required_signer(kh(k))
@@ -71,8 +84,10 @@
 //!        native-script reward credential; none for Plutus), required signers, minting-policy keys), one bootstrap
 //!        witness per distinct Byron address among inputs and collateral.  The signing set is read off the BODY (inputs,
 //!        collateral, certs, withdrawals, mint, required_signers) and the scenario's UTxO table, never off the builder's own
-//!        counting.  mem / steps = sums over the redeemers of the witness set; refsize = ground truth: <refsize> of every
-//!        spent UTxO of kinds 0..4 (each input separately) + distinct <refsize> of the spent kinds 5/6 + sizes of all x ref ops.
+//!        counting.  mem / steps = sums over the redeemers of the witness set; refsize = the LEDGER rule on the body: over
+//!        the set of outpoints body.inputs + body.reference_inputs (each once) the true script bytes on the outpoint: a
+//!        scenario UTxO of kinds 0..4 -> its <refsize> (not what an xr declared), the reference outpoint of a kind-5/6
+//!        script -> that <refsize>, a fresh `x ref` outpoint -> its size, `x refplain` outpoints and kind-5/6 UTxOs -> 0.
 //!   UNS  the same figures for build_tx_unsafe() at the very end (when a fee is set and it succeeds).
 //!   POL  the fee request at the end: u nothing, n r = the last of the fee/minfee ops was minfee r, e f = it was fee f.
 //!   ORA  per op what hook H5 (rust/src/verif_oracle.rs) recorded (sites F A S T; marker C filtered; for selchange only the
@@ -132,7 +147,12 @@ fn kh(k: u64) -> Ed25519KeyHash {
 fn key_cred(k: u64) -> Credential { Credential::from_keyhash(&kh(k)) }
 fn entropy_from(a: u64) -> Vec<u8> { Rng::new(0xB1_0000 ^ a).bytes(32) }
 fn byron_key(a: u64) -> Bip32PrivateKey { BYRON_KEYS.with(|t| Bip32PrivateKey::from_bytes(&t[(a % 3) as usize]).unwrap()) }
-fn byron_addr(a: u64) -> ByronAddress { ByronAddress::icarus_from_key(&byron_key(a).to_public(), NetworkInfo::mainnet().protocol_magic()) }
+/// Byron address number a (0..5): key a mod 3; mainnet magic (no attributes) for a < 3, a testnet magic (network-magic attribute) else
+const TESTNET_MAGIC: u32 = 1097911063;
+fn byron_addr(a: u64) -> ByronAddress {
+    let magic = if (a % 6) < 3 { NetworkInfo::mainnet().protocol_magic() } else { TESTNET_MAGIC };
+    ByronAddress::icarus_from_key(&byron_key(a).to_public(), magic)
+}
 
 /// the six minting policies: native scripts (one signature each, a real key); policy id = script hash
 fn policy_script(i: u64) -> NativeScript { NativeScript::new_script_pubkey(&ScriptPubkey::new(&kh(1000 + i))) }
@@ -202,19 +222,39 @@ fn utxo_address(id: u64, kind: u32) -> Option<Address> {
     match kind {
         0 => Some(if (id / 2) % 2 == 0 { EnterpriseAddress::new(1, &key_cred(utxo_key(id))).to_address() }
                   else { BaseAddress::new(1, &key_cred(utxo_key(id)), &key_cred((id + 5) % POOL)).to_address() }),
-        1 => Some(byron_addr(id % 3).to_address()),
+        1 => Some(byron_addr(id % 6).to_address()),
         _ => None,
     }
 }
-fn utxo_native_keys(id: u64) -> Vec<u64> { if (id / 2) % 2 == 0 { vec![utxo_key(id)] } else { vec![utxo_key(id), (utxo_key(id) + 1) % POOL] } }
+/// kind 2 with a script shared between ids (ScriptAny of two keys) and a declared signer
+fn native_shared(id: u64) -> bool { (id / 4) % 3 == 2 }
+/// the keys that sign for a kind-2 input: all keys of its own script, or the one its source declares
+fn utxo_native_keys(id: u64) -> Vec<u64> {
+    if native_shared(id) { vec![id % 3 + (id / 12) % 2] }
+    else if (id / 2) % 2 == 0 { vec![utxo_key(id)] } else { vec![utxo_key(id), (utxo_key(id) + 1) % POOL] }
+}
 fn pubkey_script(k: u64) -> NativeScript { NativeScript::new_script_pubkey(&ScriptPubkey::new(&kh(k))) }
 fn utxo_native_script(id: u64) -> NativeScript {
+    if native_shared(id) {
+        let mut any = NativeScripts::new();
+        for k in [id % 3, id % 3 + 1] { any.add(&pubkey_script(k)); }
+        return NativeScript::new_script_any(&ScriptAny::new(&any));
+    }
     let ks = utxo_native_keys(id);
     if ks.len() == 1 { pubkey_script(ks[0]) } else {
         let mut all = NativeScripts::new();
         for k in &ks { all.add(&pubkey_script(*k)); }
         NativeScript::new_script_all(&ScriptAll::new(&all))
     }
+}
+fn utxo_native_source(id: u64) -> NativeScriptSource {
+    let mut src = NativeScriptSource::new(&utxo_native_script(id));
+    if native_shared(id) {
+        let mut ks = Ed25519KeyHashes::new();
+        for k in utxo_native_keys(id) { ks.add(&kh(k)); }
+        src.set_required_signers(&ks);
+    }
+    src
 }
 fn plutus_script(id: u64) -> PlutusScript {
     let mut bytes = vec![0x4du8, 0x01, 0x00, 0x00];
@@ -394,6 +434,7 @@ enum Op {
     SelChange(u32, u64, u64, Vec<u64>),
     Build,
     X(String, u64),
+    Xr(u64, u64),
 }
 fn opt_bn_s(o: &Option<BigNum>) -> String { match o { Some(v) => v.to_str(), None => "~".into() } }
 impl Op {
@@ -416,6 +457,7 @@ impl Op {
             Op::SelChange(st, a, e, ids) => { let mut s = format!("selchange {} {} {} {}", st, a, e, ids.len()); for i in ids { s.push_str(&format!(" {}", i)); } s }
             Op::Build => "build".into(),
             Op::X(t, n) => format!("x {} {}", t, n),
+            Op::Xr(i, n) => format!("xr {} {}", i, n),
         }
     }
     fn is_balancing(&self) -> bool { matches!(self, Op::Change(..) | Op::SelChange(..)) }
@@ -423,7 +465,7 @@ impl Op {
 
 #[derive(Clone, Debug)]
 struct Cfg { pool: BigNum, key: BigNum, pure_: bool, noburn: bool, cpb: BigNum, maxval: u32, maxtx: u32, a: BigNum, b: BigNum,
-             prices: Option<[u64; 4]>, refprice: Option<[u64; 2]> }
+             prices: Option<[u64; 4]>, refprice: Option<[u64; 2]>, dd: bool }
 #[derive(Clone, Debug)]
 struct Scenario { label: String, cfg: Cfg, utxos: Vec<U>, ops: Vec<Op> }
 impl Scenario {
@@ -442,6 +484,7 @@ impl Scenario {
         s.push_str(" PR");
         match c.prices { None => s.push_str(" ~"), Some(p) => s.push_str(&format!(" {} {} {} {}", p[0], p[1], p[2], p[3])) }
         match c.refprice { None => s.push_str(" ~"), Some(p) => s.push_str(&format!(" {} {}", p[0], p[1])) }
+        s.push_str(&format!(" DD {}", c.dd as u8));
         s.push_str(&format!(" U {}", self.utxos.len()));
         for u in &self.utxos { s.push_str(&format!(" {} {} {} {} {} {}", u.id, u.kind, u.mem, u.steps, u.refsize, u.val.show())); }
         let obs = self.out_shapes();
@@ -473,10 +516,11 @@ fn parse(toks: &[String]) -> Scenario {
     let label = p.next().to_string();
     p.expect("CFG");
     let mut cfg = Cfg { pool: bn(p.next()), key: bn(p.next()), pure_: p.next() == "1", noburn: p.next() == "1", cpb: bn(p.next()),
-        maxval: p.next().parse().unwrap(), maxtx: p.next().parse().unwrap(), a: bn(p.next()), b: bn(p.next()), prices: None, refprice: None };
+        maxval: p.next().parse().unwrap(), maxtx: p.next().parse().unwrap(), a: bn(p.next()), b: bn(p.next()), prices: None, refprice: None, dd: false };
     p.expect("PR");
     if p.peek() == "~" { p.next(); } else { cfg.prices = Some([p.u64(), p.u64(), p.u64(), p.u64()]); }
     if p.peek() == "~" { p.next(); } else { cfg.refprice = Some([p.u64(), p.u64()]); }
+    if p.peek() == "DD" { p.next(); cfg.dd = p.next() == "1"; }
     p.expect("U");
     let n = p.count().unwrap();
     let utxos = (0..n).map(|_| U { id: p.u64(), kind: p.u64() as u32, mem: p.u64(), steps: p.u64(), refsize: p.u64(), val: p.val() }).collect();
@@ -502,6 +546,7 @@ fn parse(toks: &[String]) -> Scenario {
             "selchange" => { let st: u32 = p.next().parse().unwrap(); let a = p.u64(); let e = p.u64(); let k = p.count().unwrap(); Op::SelChange(st, a, e, (0..k).map(|_| p.u64()).collect()) }
             "build" => Op::Build,
             "x" => { let t = p.next().to_string(); Op::X(t, p.u64()) }
+            "xr" => { let i = p.u64(); Op::Xr(i, p.u64()) }
             x => panic!("bad op {}", x),
         };
         ops.push(op);
@@ -526,7 +571,10 @@ struct World {
     plutus_wd: bool,
     sdh_set: bool,
     n_xref: u64,
-    xref_total: u64,
+    /// ids that have an xr op somewhere in the scenario
+    xr_ids: BTreeSet<u64>,
+    /// outpoints that are never spent (reference outpoints of kind-5/6 scripts, x ref, x refplain): true script bytes there
+    ref_bytes: HashMap<Vec<u8>, u64>,
 }
 fn note_addr(w: &mut World, id: u64) { w.addr_ids.insert(address(id).to_bytes(), id); }
 
@@ -543,7 +591,8 @@ fn new_world(sc: &Scenario) -> World {
         .max_value_size(c.maxval).max_tx_size(c.maxtx)
         .coins_per_utxo_byte(&c.cpb)
         .prefer_pure_change(c.pure_)
-        .do_not_burn_extra_change(c.noburn);
+        .do_not_burn_extra_change(c.noburn)
+        .deduplicate_explicit_ref_inputs_with_regular_inputs(c.dd);
     if let Some(p) = c.prices {
         cb = cb.ex_unit_prices(&ExUnitPrices::new(&UnitInterval::new(&b64(p[0]), &b64(p[1])), &UnitInterval::new(&b64(p[2]), &b64(p[3]))));
     }
@@ -554,9 +603,12 @@ fn new_world(sc: &Scenario) -> World {
     for i in 0..N_POLICIES { policy_idx.insert(policy_script(i).hash().to_bytes(), i); key_ids.insert(kh(1000 + i).to_bytes(), 1000 + i); }
     let mut native_keys = HashMap::new();
     for k in 0..POOL { key_ids.insert(kh(k).to_bytes(), k); native_keys.insert(pubkey_script(k).hash().to_bytes(), k); }
+    let xr_ids: BTreeSet<u64> = sc.ops.iter().filter_map(|o| match o { Op::Xr(i, _) => Some(*i), _ => None }).collect();
+    let mut ref_bytes = HashMap::new();
+    for u in &sc.utxos { if u.kind >= 5 { ref_bytes.insert(ref_outpoint(41, u.refsize).to_bytes(), u.refsize); } }
     World { tb: TransactionBuilder::new(&cfg), mint: MintBuilder::new(), ib: TxInputsBuilder::new(), coll: TxInputsBuilder::new(),
             utxos: sc.utxos.iter().map(|u| (u.id, u.clone())).collect(),
-            addr_ids: HashMap::new(), policy_idx, key_ids, native_keys, plutus_in: false, plutus_wd: false, sdh_set: false, n_xref: 0, xref_total: 0 }
+            addr_ids: HashMap::new(), policy_idx, key_ids, native_keys, plutus_in: false, plutus_wd: false, sdh_set: false, n_xref: 0, xr_ids, ref_bytes }
 }
 
 /// key and Byron UTxOs as coin selection sees them (with the script_ref they carry, if any)
@@ -614,23 +666,23 @@ fn run_op(w: &mut World, op: &Op, last_tx: &mut Option<Transaction>) -> OpRec {
             let r = match w.utxos.get(id).cloned() {
                 Some(u) => {
                     let (input, value) = (utxo_input(u.id), u.val.to_value());
-                    let utxo_form = has_own_ref(&u) || u.id % 2 == 1;
+                    let utxo_form = if has_own_ref(&u) { !(w.xr_ids.contains(&u.id) && u.id % 3 != 0) } else { u.id % 2 == 1 };
                     let ib = &mut w.ib;
                     let r = catch(|| -> Result<(), JsError> {
                         if utxo_form {
                             let tu = TransactionUnspentOutput::new(&input, &utxo_output(&u)?);
                             match u.kind {
                                 0 | 1 => ib.add_regular_utxo(&tu),
-                                2 => ib.add_native_script_utxo(&tu, &NativeScriptSource::new(&utxo_native_script(u.id))),
+                                2 => ib.add_native_script_utxo(&tu, &utxo_native_source(u.id)),
                                 _ => ib.add_plutus_script_utxo(&tu, &plutus_witness(&u)),
                             }
                         } else {
                             match u.kind {
                                 0 => { if u.id % 4 == 0 { ib.add_key_input(&kh(utxo_key(u.id)), &input, &value); Ok(()) }
                                        else { ib.add_regular_input(&utxo_address(u.id, 0).unwrap(), &input, &value) } }
-                                1 => { if u.id % 4 == 0 { ib.add_bootstrap_input(&byron_addr(u.id % 3), &input, &value); Ok(()) }
-                                       else { ib.add_regular_input(&byron_addr(u.id % 3).to_address(), &input, &value) } }
-                                2 => { ib.add_native_script_input(&NativeScriptSource::new(&utxo_native_script(u.id)), &input, &value); Ok(()) }
+                                1 => { if u.id % 4 == 0 { ib.add_bootstrap_input(&byron_addr(u.id % 6), &input, &value); Ok(()) }
+                                       else { ib.add_regular_input(&byron_addr(u.id % 6).to_address(), &input, &value) } }
+                                2 => { ib.add_native_script_input(&utxo_native_source(u.id), &input, &value); Ok(()) }
                                 3..=6 => { ib.add_plutus_script_input(&plutus_witness(&u), &input, &value); Ok(()) }
                                 _ => Err(JsError::from_str("unknown utxo kind")),
                             }
@@ -727,8 +779,8 @@ fn run_op(w: &mut World, op: &Op, last_tx: &mut Option<Transaction>) -> OpRec {
                 "colltotal" => { w.tb.set_total_collateral(&b64(*n)); Ok(Ok(())) }
                 "collret" => { w.tb.set_collateral_return(&TransactionOutput::new(&address(*n), &Value::new(&b64(2_000_000)))); Ok(Ok(())) }
                 "datum" => { w.tb.add_extra_witness_datum(&PlutusData::new_bytes(vec![0xd0 + (*n % 16) as u8; *n as usize])); Ok(Ok(())) }
-                "ref" => { w.tb.add_script_reference_input(&ref_outpoint(50, w.n_xref), *n as usize); w.n_xref += 1; w.xref_total += *n; Ok(Ok(())) }
-                "refplain" => { w.tb.add_reference_input(&ref_outpoint(51, *n)); Ok(Ok(())) }
+                "ref" => { let o = ref_outpoint(50, w.n_xref); w.tb.add_script_reference_input(&o, *n as usize); w.ref_bytes.insert(o.to_bytes(), *n); w.n_xref += 1; Ok(Ok(())) }
+                "refplain" => { let o = ref_outpoint(51, *n); w.tb.add_reference_input(&o); w.ref_bytes.insert(o.to_bytes(), 0); Ok(Ok(())) }
                 "meta" => catch(|| -> Result<(), JsError> {
                     let mut list = MetadataList::new();
                     let mut left = *n as usize;
@@ -739,6 +791,11 @@ fn run_op(w: &mut World, op: &Op, last_tx: &mut Option<Transaction>) -> OpRec {
                 "ttl" => { w.tb.set_ttl_bignum(&b64(*n)); Ok(Ok(())) }
                 t => panic!("bad x tag {}", t),
             };
+            plain(res_unit(r))
+        }
+        Op::Xr(id, size) => {
+            let r = if w.utxos.contains_key(id) { w.tb.add_script_reference_input(&utxo_input(*id), *size as usize); Ok(Ok(())) }
+                    else { Ok(Err(JsError::from_str("no such utxo"))) };
             plain(res_unit(r))
         }
         Op::Change(a, e) => {
@@ -803,19 +860,15 @@ fn signed_figures(w: &World, tx: &Transaction) -> String {
     let tx_hash = FixedTransaction::new_from_body_bytes(&body.to_bytes()).expect("body re-reads").transaction_hash();
     let mut keys: BTreeSet<u64> = BTreeSet::new();
     let mut boots: BTreeSet<u64> = BTreeSet::new();
-    let mut ref_sizes: BTreeSet<u64> = BTreeSet::new();
-    let mut own_ref_total: u64 = 0;
     let key_of = |h: &Ed25519KeyHash| -> u64 { *w.key_ids.get(&h.to_bytes()).expect("key hash of the body is one of the scenario's keys") };
-    let mut owner = |id: u64, spent: bool| {
+    let mut owner = |id: u64| {
         let u = w.utxos.get(&id).expect("input of the body is a UTxO of the scenario");
         match u.kind {
             0 => { keys.insert(utxo_key(id)); }
-            1 => { boots.insert(id % 3); }
+            1 => { boots.insert(id % 6); }
             2 => { keys.extend(utxo_native_keys(id)); }
-            5 | 6 => { if spent { ref_sizes.insert(u.refsize); } }
             _ => {}
         }
-        if spent && has_own_ref(u) { own_ref_total += u.refsize; }
     };
     // a credential that has to authorise something: its key, the key of its native script, nothing for a Plutus script
     let cred_key = |c: &Credential| -> Option<u64> {
@@ -827,8 +880,8 @@ fn signed_figures(w: &World, tx: &Transaction) -> String {
         }
     };
     let ins = body.inputs();
-    for i in 0..ins.len() { owner(utxo_id_of(&ins.get(i)), true); }
-    if let Some(col) = body.collateral() { for i in 0..col.len() { owner(utxo_id_of(&col.get(i)), false); } }
+    for i in 0..ins.len() { owner(utxo_id_of(&ins.get(i))); }
+    if let Some(col) = body.collateral() { for i in 0..col.len() { owner(utxo_id_of(&col.get(i))); } }
     if let Some(rs) = body.required_signers() { for i in 0..rs.len() { keys.insert(key_of(&rs.get(i))); } }
     if let Some(cs) = body.certs() { for i in 0..cs.len() { if let Some(k) = cert_witness_cred(&cs.get(i)).and_then(|c| cred_key(&c)) { keys.insert(k); } } }
     if let Some(ws) = body.withdrawals() {
@@ -863,7 +916,19 @@ fn signed_figures(w: &World, tx: &Transaction) -> String {
     if let Some(rs) = tx.witness_set().redeemers() {
         for i in 0..rs.len() { let e = rs.get(i).ex_units(); mem += u64of(&e.mem()) as u128; steps += u64of(&e.steps()) as u128; }
     }
-    let refsize: u64 = own_ref_total + ref_sizes.iter().sum::<u64>() + w.xref_total;
+    // the ledger's reference-script bytes: every outpoint of inputs + reference inputs once, the script its output really holds
+    let mut outpoints: BTreeSet<Vec<u8>> = BTreeSet::new();
+    let mut refsize: u64 = 0;
+    let mut count = |o: &TransactionInput| {
+        if !outpoints.insert(o.to_bytes()) { return; }
+        let id = utxo_id_of(o);
+        refsize += match w.utxos.get(&id) {
+            Some(u) if utxo_input(id).to_bytes() == o.to_bytes() => if has_own_ref(u) { u.refsize } else { 0 },
+            _ => *w.ref_bytes.get(&o.to_bytes()).expect("reference input of the body is an outpoint of the scenario"),
+        };
+    };
+    for i in 0..ins.len() { count(&ins.get(i)); }
+    if let Some(rs) = body.reference_inputs() { for i in 0..rs.len() { count(&rs.get(i)); } }
     format!("{} {} {} {} {} {} {}", body.fee().to_str(), bytes.len(), nvk, nbw, mem, steps, refsize)
 }
 
@@ -986,9 +1051,17 @@ fn gen_cfg(r: &mut Rng) -> Cfg {
           cpb: b64(*r.pick(&[4310u64, 4310, 4310, 4310, 1, 0, 100, 34482, 1000])), maxval: *r.pick(&[5000u32, 5000, 4000, 300, 150, 80]),
           maxtx: *r.pick(&[16384u32, 16384, 16384, 16384, 16384, 16384, 100000, 100000, 400, 1200]), a: b64(a), b: b64(b),
           prices: if r.chance(1, 2) { Some(MAINNET_PRICES) } else { None },
-          refprice: if r.chance(1, 2) { Some([15, 1]) } else { None } }
+          refprice: if r.chance(1, 2) { Some([15, 1]) } else { None }, dd: false }
 }
 fn shuffle<T>(r: &mut Rng, v: &mut Vec<T>) { for i in (1..v.len()).rev() { let j = r.below(i as u64 + 1) as usize; v.swap(i, j); } }
+
+/// shuffle, but keep the xr ops in their order among themselves (of two xr ops for one id the LAST declared size counts)
+fn shuffle_ops(r: &mut Rng, pre: &mut Vec<Op>) {
+    let xs: Vec<Op> = pre.iter().filter(|o| matches!(o, Op::Xr(..))).cloned().collect();
+    shuffle(r, pre);
+    let mut k = 0;
+    for o in pre.iter_mut() { if matches!(o, Op::Xr(..)) { *o = xs[k].clone(); k += 1; } }
+}
 
 fn gen_certs(r: &mut Rng, edge: bool) -> Vec<(u32, Option<BigNum>)> {
     let n = r.range(1, 5);
@@ -1014,23 +1087,74 @@ fn gen_collateral(r: &mut Rng, utxos: &mut Vec<U>, pre: &mut Vec<Op>) {
     }
 }
 
+/// explicit reference inputs on the scenario's own UTxOs (`xr`): on a UTxO that is spent (the shuffle puts the xr before
+/// or after its `in`), on the collateral, or on an extra UTxO that is not spent; the declared size is mostly the size of
+/// the script_ref the UTxO really carries.  Also draws the de-duplication flag of the configuration.
+fn gen_xr(r: &mut Rng, cfg: &mut Cfg, utxos: &mut Vec<U>, pre: &mut Vec<Op>, allow: bool) {
+    let mut any = false;
+    if allow && r.chance(1, 5) {
+        for _ in 0..r.range(1, 2) {
+            let spent: Vec<u64> = pre.iter().filter_map(|o| match o { Op::In(i) => Some(*i), _ => None })
+                .filter(|i| utxos.iter().any(|u| u.id == *i && u.kind <= 4)).collect();
+            let coll: Vec<u64> = pre.iter().filter_map(|o| match o { Op::X(t, i) if t == "coll" => Some(*i), _ => None }).collect();
+            let id = match r.below(8) {
+                0..=4 if !spent.is_empty() => *r.pick(&spent),
+                5 | 6 if !coll.is_empty() => *r.pick(&coll),
+                _ => { let id = 700 + r.below(60); if !utxos.iter().any(|u| u.id == id) { utxos.push(U::key(id, Val::ada(3_000_000))); } id }
+            };
+            let u = utxos.iter_mut().find(|u| u.id == id).unwrap();
+            if u.refsize == 0 && r.chance(4, 5) { u.refsize = gen_own_ref(r); }
+            let truth = u.refsize;
+            let at_least = |r: &mut Rng| if r.chance(3, 4) { truth } else { truth + *r.pick(&[1u64, 100, 25600]) };
+            if r.chance(1, 6) { let first = *r.pick(&[0u64, truth / 2, truth, truth + 7, 25600]); pre.push(Op::Xr(id, first)); }
+            let last = at_least(r);
+            pre.push(Op::Xr(id, last));
+            any = true;
+        }
+        if cfg.refprice.is_none() && !r.chance(1, 6) { cfg.refprice = Some(*r.pick(&[[15u64, 1u64], [15, 1], [44, 1], [1, 3]])); }
+    }
+    cfg.dd = if any { r.chance(1, 2) } else { r.chance(1, 6) };
+}
+
 /// the witness-relevant extras: Byron / native-script / Plutus UTxOs (some carrying a script_ref of their own), collateral,
 /// required signers, reference inputs, extra datums, metadata, ttl.  Ops are appended to `pre` (which the caller shuffles).
 fn decorate(r: &mut Rng, cfg: &mut Cfg, utxos: &mut Vec<U>, pre: &mut Vec<Op>, full: bool, plutus_wd: bool) {
     if full && r.chance(1, 6) {
-        let n = if r.chance(1, 3) { 2 } else { 1 };
-        let base = 210 + r.below(6);
-        for j in 0..n {
-            let id = base + j * (1 + r.below(2)) * 7;
+        // one Byron input, or two or three with addresses of both kinds (with and without the network-magic attribute)
+        let n = if r.chance(1, 2) { r.range(2, 3) } else { 1 };
+        let mut ids: Vec<u64> = vec![210 + r.below(30)];
+        while (ids.len() as u64) < n {
+            let id = 210 + r.below(30);
+            if ids.contains(&id) || (ids.len() == 1 && (id / 3) % 2 == (ids[0] / 3) % 2) { continue; }
+            ids.push(id);
+        }
+        for id in ids {
             let refsize = if r.chance(1, 3) { gen_own_ref(r) } else { 0 };
             utxos.push(U { id, kind: 1, mem: 0, steps: 0, refsize, val: Val::ada(r.range(2_000_000, 9_000_000)) }); pre.push(Op::In(id));
         }
     }
     if full && r.chance(1, 6) {
-        let n = if r.chance(1, 4) { 2 } else { 1 };
-        let base = 300 + r.below(24);
-        for j in 0..n {
-            let id = base + j * 25;
+        let ids: Vec<u64> = if r.chance(1, 3) {
+            // two inputs locked by the same script whose sources declare different signers; the two keys are, when
+            // possible, keys that nothing else of the scenario so far needs
+            let mut used: BTreeSet<u64> = utxos.iter().flat_map(|u| match u.kind { 0 => vec![utxo_key(u.id)], 2 => utxo_native_keys(u.id), _ => vec![] }).collect();
+            for o in pre.iter() {
+                match o {
+                    Op::X(t, k) if t == "sig" => { used.insert(*k); }
+                    Op::Wd(Some(ws)) => for (a, _) in ws { used.insert(match *a { 21..=31 => *a - 20, 41..=51 => 99, _ => *a % POOL }); },
+                    Op::Certs(Some(cs)) => for i in 0..cs.len() as u64 { used.insert(cert_key(i)); },
+                    _ => {}
+                }
+            }
+            let free: Vec<u64> = (0..3u64).filter(|g| !used.contains(g) && !used.contains(&(g + 1))).collect();
+            let g = if free.is_empty() { r.below(3) } else { *r.pick(&free) };
+            let j = match g { 0 => 1, 1 => 2, _ => *r.pick(&[0u64, 3]) };
+            vec![12 * *r.pick(&[30u64, 32]) + 8 + j, 12 * 31 + 8 + j]
+        } else {
+            let base = 300 + r.below(24);
+            if r.chance(1, 4) { vec![base, base + 25] } else { vec![base] }
+        };
+        for id in ids {
             let refsize = if r.chance(1, 4) { gen_own_ref(r) } else { 0 };
             utxos.push(U { id, kind: 2, mem: 0, steps: 0, refsize, val: Val::ada(r.range(2_000_000, 9_000_000)) }); pre.push(Op::In(id));
         }
@@ -1150,7 +1274,8 @@ fn gen_scenario(r: &mut Rng, stream: u32) -> Scenario {
     }
     if r.chance(1, 5) { pre.push(if r.chance(1, 2) { Op::Fee(b64(*r.pick(&[170_000u64, 200_000, 1_000_000, 0, 5_000_000]))) } else { Op::MinFee(b64(*r.pick(&[170_000u64, 250_000, 1_000_000, 0, 5_000_000]))) }); }
     decorate(r, &mut cfg, &mut utxos, &mut pre, true, plutus_wd);
-    shuffle(r, &mut pre);
+    gen_xr(r, &mut cfg, &mut utxos, &mut pre, stream != 5);
+    shuffle_ops(r, &mut pre);
     let change_addr = r.range(1, 30);
     match stream {
         5 => {
@@ -1240,7 +1365,7 @@ fn gen_width(r: &mut Rng) -> Scenario {
     let cpb = *r.pick(&[0u64, 1, 0, 1, 100, 4310]);
     let mut cfg = Cfg { pool: b64(500_000_000), key: b64(2_000_000), pure_: r.chance(1, 2), noburn: r.chance(1, 4), cpb: b64(cpb),
         maxval: 5000, maxtx: 16384, a: b64(a), b: b64(b), prices: if r.chance(1, 2) { Some(MAINNET_PRICES) } else { None },
-        refprice: if r.chance(1, 2) { Some([15, 1]) } else { None } };
+        refprice: if r.chance(1, 2) { Some([15, 1]) } else { None }, dd: false };
     let n_tok = *r.pick(&[0u64, 0, 1, 2]);
     let assets = if n_tok == 0 { None } else {
         Some((0..n_tok).map(|k| (policy_bytes(k * r.below(2)), NAMES[(1 + k + r.below(3)) as usize].to_vec(), b64(*r.pick(&[1u64, 5, 1000, 1 << 33])))).collect::<Vec<_>>())
@@ -1259,8 +1384,9 @@ fn gen_width(r: &mut Rng) -> Scenario {
     }
     if let Some(m) = meta { pre.push(Op::X("meta".into(), m)); }
     decorate(r, &mut cfg, &mut utxos, &mut pre, false, false);
+    gen_xr(r, &mut cfg, &mut utxos, &mut pre, true);
     let head = pre.remove(0);
-    shuffle(r, &mut pre);
+    shuffle_ops(r, &mut pre);
     pre.insert(0, head);
     let pos = pre.len();
     let mut ops = pre;
